@@ -422,6 +422,8 @@ func (self *Fork) updateId(id ForkId) {
 	self.path = path.Join(self.node.path, self.id)
 	self.fqname = self.node.call.GetFqid() + "." + encodeJournalName.Replace(self.id)
 	self.metadata = NewMetadata(self.fqname, self.path)
+	// The cached list refers to the metadata objects being replaced.
+	self.metadatasCache = nil
 	self.split_metadata = NewMetadata(self.fqname+".split",
 		path.Join(self.path, "split"))
 	self.split_metadata.journalPath = path.Join(self.node.top.journalPath,
